@@ -361,9 +361,18 @@ def match_known(cls, site, msg, det_msg, klist, fbytes=None):
                     return k["id"]
             if pred == "thrift-list-count-exceeds-input" and fbytes is not None and lying_list_count(fbytes):
                 return k["id"]
+            if pred == "chunk-range-beyond-file" and fbytes is not None and chunk_range_beyond_file(fbytes):
+                return k["id"]
+            if pred == "page-count-exceeds-file" and fbytes is not None and page_count_exceeds_file(fbytes):
+                return k["id"]
             continue
         if cls == "timeout":
+            if pred == "trailer-length-exceeds-file" and fbytes is not None and len(fbytes) >= 12 and fbytes[-4:] == b"PAR1" and \
+                    int.from_bytes(fbytes[-8:-4], "little") + 8 > len(fbytes) and int.from_bytes(fbytes[-8:-4], "little") >= 1 << 28:
+                return k["id"]     # the zero-filled allocation itself (below the address space limit) takes longer than the watchdog
             if pred == "rowgroup-num-rows-exceeds-file" and fbytes is not None and row_count_lie(fbytes):
+                return k["id"]
+            if pred == "chunk-range-beyond-file" and fbytes is not None and chunk_range_beyond_file(fbytes):
                 return k["id"]
             continue
         if site is None or "files" not in m:
@@ -392,9 +401,51 @@ def row_count_lie(fb):
             if f[0] == 4 and f[2][0] == "list":
                 for rg in f[2][3]:
                     for g in rg[1]:
-                        if g[0] == 3 and g[2][0] == "int" and g[2][2] > 64 * len(fb) + 100000:
+                        if g[0] == 3 and g[2][0] == "int" and (g[2][2] > 64 * len(fb) + 100000 or g[2][2] < 0):
                             return True
     except (Bad, IndexError, TypeError):
+        return False
+    return False
+
+
+def chunk_range_beyond_file(fb):
+    """does some column chunk of the footer lie outside the file?  (ColumnChunkMetaData::byte_range as reader.rs uses it)"""
+    try:
+        flen = int.from_bytes(fb[-8:-4], "little")
+        st = len(fb) - 8 - flen
+        if st < 4 or fb[-4:] != b"PAR1":
+            return False
+        tree, _ = parse_value(fb, st, T_STRUCT)
+        for f in tree[1]:
+            if f[0] == 4 and f[2][0] == "list":
+                for rg in f[2][3]:
+                    for g in rg[1]:
+                        if g[0] == 1 and g[2][0] == "list":
+                            for cc in g[2][3]:
+                                for h in cc[1]:
+                                    if h[0] == 3 and h[2][0] == "struct":
+                                        fl = {x[0]: x[2] for x in h[2][1]}
+                                        start = fl[11][2] if 11 in fl else fl[9][2]
+                                        ln = fl[7][2]
+                                        if start < 0 or ln < 0 or start + ln > len(fb):
+                                            return True
+    except (Bad, IndexError, TypeError, KeyError):
+        return False
+    return False
+
+
+def page_count_exceeds_file(fb):
+    """does a page header announce far more values than the file could hold?  (num_values of a dictionary / data page)"""
+    try:
+        f = PqFile("probe", fb)
+        for (ci, a, j, tree, e) in f.allpages:
+            fl = {x[0]: x[2] for x in tree[1]}
+            for fid in (5, 7, 8):
+                if fid in fl and fl[fid][0] == "struct":
+                    for x in fl[fid][1]:
+                        if x[0] == 1 and x[2][0] == "int" and (x[2][2] > 64 * len(fb) + 100000 or x[2][2] < 0):
+                            return True
+    except Exception:
         return False
     return False
 
@@ -540,8 +591,10 @@ def sql_case(cid, path, fn="read_parquet", size=0):
 def evaluate(wrap, items, klist, stats, viol, known, label):
     """items: [(id, path, bytes, how, fn)] -> classify, det re-run of aborts for the message, match classes"""
     cases = [sql_case(i, p, fn, len(b)) for (i, p, b, how, fn) in items]
+    t_a = time.time()
     real = run_parallel(wrap, cases)
     cl = [classify(r) for r in real]
+    stats.setdefault("phase_seconds", {}).setdefault(label, []).append(round(time.time() - t_a, 1))
     # every failing case again in a process of its own (clean stderr: the panic site; also clears cases blamed for a
     # neighbour's watchdog exit), then the aborts under the deterministic scheduler for the panic message
     redo = [k for k, c in enumerate(cl) if c[0] not in ("rows", "error", "timeout")]
@@ -554,6 +607,7 @@ def evaluate(wrap, items, klist, stats, viol, known, label):
         det_msg[k] = c2[2] if c2[0] == "panic" else ""
         if cl[k][1] is None and c2[0] == "panic" and c2[1]:
             cl[k] = ("abort", c2[1], cl[k][2])
+    stats["phase_seconds"][label].append(round(time.time() - t_a, 1))
     for k, ((cid, path, fb, how, fn), (cls, site, msg)) in enumerate(zip(items, cl)):
         stats["outcomes"][cls] = stats["outcomes"].get(cls, 0) + 1
         stats["by_kind"].setdefault(label, {}).setdefault(cls, 0)
@@ -714,7 +768,7 @@ def mutations(rng, f, tier):
     if quick and small:
         pri = [k for k in idx if reg.get(k) in ("pagehdr", "levels", "dict", "trailer")]
         rest = [k for k in idx if k not in set(pri)]
-        idx = sorted(set(rng.shuffle(pri)[:36] + rng.shuffle(rest)[:24]))
+        idx = sorted(set(rng.shuffle(pri)[:28] + rng.shuffle(rest)[:16]))
     for k in idx:
         bb = bytearray(b)
         bb[k] ^= 0xFF
@@ -768,9 +822,9 @@ def stage_files(ctx, rng, wrap, gmodel, klist, stats, viol, known):
         for j, (kind, how, fb) in enumerate(mutations(rng, f, ctx["tier"])):
             if fb == f.b:
                 continue
-            if ctx["tier"] == "quick" and row_count_lie(fb):
+            if ctx["tier"] == "quick" and (row_count_lie(fb) or chunk_range_beyond_file(fb)):
                 slow += 1
-                if slow > 4:        # every one of them runs into the 20 s watchdog (class rowgroup-num-rows-trusted)
+                if slow > 6:        # most of them run into the 20 s watchdog (classes rowgroup-num-rows-trusted, chunk-range-beyond-file)
                     continue
             key = hash(fb)
             if key in seen:
@@ -894,7 +948,7 @@ def run(ctx):
         "samples": [s["sample"], {"outcomes": stats["outcomes"]}],
         "outcomes": stats["outcomes"], "outcomes_by_stage": stats["by_kind"], "parquet_files": s["files"], "footer_roundtrip_ok": s["footer_roundtrip_ok"],
         "mutations": s["mutations"], "csv_cases": c["cases"], "witnesses_replayed": w["n"], "witness_mismatches": len(w["mismatch"]),
-        "distinct_error_texts": len(stats["error_texts"]), "source_flags": flags, "stage_seconds": [round(b - a, 1) for a, b in zip(tt, tt[1:])],
+        "distinct_error_texts": len(stats["error_texts"]), "phase_seconds": stats.get("phase_seconds"), "source_flags": flags, "stage_seconds": [round(b - a, 1) for a, b in zip(tt, tt[1:])],
         "exhaustive": False,
     }
     out["level_claimed"] = "partial"
